@@ -147,6 +147,19 @@ Example C21_access_point_rule :
   wt_by_id tg_schema 0 0x4679b65f v = true /\ rt_by_id tg_schema 0 0x4679b65f v = true.
 Proof. vm_compute. split; reflexivity. Qed.
 
+(* ---- result-vector helper structs (IntVector, UserClassVector, ...: gen/make_vector.go) are
+        pseudo-constructors of the schema term (tg_vectors), addressed bare: Encode writes the
+        vector header and the elements, no constructor id.  They are covered by C21_roundtrip /
+        C21_total through TBare; the synthetic id 3942494659 = crc32 "vec:TyInt" names Vector<int>. ---- *)
+Example C21_vector_box :
+  let v := VObj 3942494659 [VVec [VZ 1; VZ (-2)]] in
+  wt_by_id tg_schema 1 3942494659 v = true /\ rt_by_id tg_schema 1 3942494659 v = true /\
+  match ty_of tg_schema 1 3942494659 with
+  | Some t => encode tg_schema t v = Ok [21; 196; 181; 28; 2; 0; 0; 0; 1; 0; 0; 0; 254; 255; 255; 255]
+  | None => False
+  end.
+Proof. vm_compute. repeat split; reflexivity. Qed.
+
 (* ---- reused receivers (audit): the round trip is a statement about decoding into a FRESH
         value (what tmap constructors hand out).  Decoding into a receiver that already holds
         a value keeps optional fields whose bit is clear and vectors whose count is 0:
